@@ -28,8 +28,11 @@ Verdict(b) == CASE b = "call_ok"     -> [doc |-> "result",   codes |-> "zero",  
                 [] b = "invalid"     -> [doc |-> "error",    codes |-> "error", execs |-> 0]
                 [] b = "notjson"     -> [doc |-> "error",    codes |-> "error", execs |-> 0]
                 [] b = "non_utf8"    -> [doc |-> "dontcare", codes |-> "error", execs |-> 0]
-StatusOf(fn, integ, codes) == IF fn = "default" \/ integ = "werkzeug" THEN 200
-                              ELSE IF codes = "zero" THEN 201 ELSE 422
+\* the custom status function looks at the whole tuple of codes (how many there are, whether any is an error):
+\* one code: 201 / 422; several codes (a batch): 202 / 207
+StatusOf(fn, integ, v) == IF fn = "default" \/ integ = "werkzeug" THEN 200
+                          ELSE IF v.doc = "array" THEN (IF v.codes = "zero" THEN 202 ELSE 207)
+                          ELSE IF v.codes = "zero" THEN 201 ELSE 422
 
 InitWith(r) == req = r /\ pc = "recv" /\ execs = 0 /\ reply = [status |-> 0, ctype |-> "na", body |-> "na"]
 
@@ -43,12 +46,12 @@ Dispatch == /\ pc = "recv" /\ Acceptable(req.media)
 Reply == /\ pc = "dispatched"
          /\ LET v == Verdict(req.body) IN
             reply' = IF v.doc = "nothing" THEN [status |-> 200, ctype |-> "any", body |-> "empty"]
-                     ELSE [status |-> StatusOf(req.statusfn, req.integ, v.codes), ctype |-> "json", body |-> "same"]
+                     ELSE [status |-> StatusOf(req.statusfn, req.integ, v), ctype |-> "json", body |-> "same"]
          /\ pc' = "replied" /\ UNCHANGED <<req, execs>>
 \* a body that is not UTF-8: the statement leaves it open (400, or the -32700 document) - but nothing may run
 ReplyUndecodable == /\ pc = "dispatched" /\ req.body = "non_utf8"
                     /\ \/ reply' = [status |-> 400, ctype |-> "any", body |-> "any"]
-                       \/ reply' = [status |-> StatusOf(req.statusfn, req.integ, "error"), ctype |-> "json", body |-> "parse_error"]
+                       \/ reply' = [status |-> StatusOf(req.statusfn, req.integ, Verdict("notjson")), ctype |-> "json", body |-> "parse_error"]
                     /\ pc' = "replied" /\ UNCHANGED <<req, execs>>
 Next == Refuse \/ Dispatch \/ (req.body # "non_utf8" /\ Reply) \/ ReplyUndecodable
 Spec == [][Next]_vars
@@ -57,6 +60,6 @@ Spec == [][Next]_vars
 RefuseExecutesNothing == (pc = "replied" /\ ~Acceptable(req.media)) => (reply.status = 415 /\ execs = 0)
 RelayExact == (pc = "replied" /\ Acceptable(req.media) /\ req.body # "non_utf8") =>
                  IF Verdict(req.body).doc = "nothing" THEN reply.status = 200 /\ reply.body = "empty"
-                 ELSE reply.body = "same" /\ reply.ctype = "json" /\ reply.status = StatusOf(req.statusfn, req.integ, Verdict(req.body).codes)
+                 ELSE reply.body = "same" /\ reply.ctype = "json" /\ reply.status = StatusOf(req.statusfn, req.integ, Verdict(req.body))
 ExecsAsDispatcher == pc = "replied" => execs = (IF Acceptable(req.media) THEN Verdict(req.body).execs ELSE 0)
 =============================================================================
